@@ -34,7 +34,7 @@ CONSTANTS Pool,        \* set of compartment ids that may be used
           FlowKinds,   \* rate kinds of flows between compartments
           MaxOps,      \* number of builder operations explored after the seed system
           Thin, ThinRes, FullDepth,   \* seed systems and operations beyond FullDepth: only hash % Thin = ThinRes
-          SeedThin,    \* seed flows of systems with MaxComps >= 4 compartments are thinned by this factor
+          SeedThin, SeedThinFrom,   \* seed flows of systems with >= SeedThinFrom compartments are thinned by SeedThin
           SampleMod, SampleRes        \* emission sampling
 
 VARIABLES ins, flow, doses, lag, bio, inp, hist, n, h
@@ -94,7 +94,7 @@ SeedAddCompartment(a, d, c) ==
 SeedAddFlow(a, b, k) ==
     /\ n = 0 /\ a \in Comps /\ b \in Comps \cup {0} /\ a # b /\ Cardinality(flow) < MaxFlows
     /\ \A f \in flow : f[1] < a \/ (f[1] = a /\ f[2] < b)
-    /\ (Len(ins) < 4 \/ SeedThin = 1 \/ Mix(h, Code(Op("add_flow", a, b, k, 0))) % SeedThin = ThinRes % SeedThin)
+    /\ (Len(ins) < SeedThinFrom \/ SeedThin = 1 \/ Mix(h, Code(Op("add_flow", a, b, k, 0))) % SeedThin = ThinRes % SeedThin)
     /\ flow' = flow \cup {<<a, b, k>>}
     /\ UNCHANGED <<ins, doses, lag, bio, inp>>
     /\ SeedLog(Op("add_flow", a, b, k, 0))
@@ -233,11 +233,11 @@ OrderOf(q) == LET ds == DosingOf(q)
 Order == OrderOf(ins)
 \* CompartmentalSystem.subs (any substitution, even {}): every compartment is rebuilt from the VIEW of its doses, so a
 \* compartment whose stored dose tuple is not infusions-first becomes a different node and re-enters at the end of
-\* the node order (in node order) -- which can change the central compartment and with it the reported order
-RECURSIVE SubsNodes(_, _)
-SubsNodes(q, todo) == IF todo = <<>> THEN q
-                      ELSE SubsNodes(IF doses[Head(todo)] # View(doses[Head(todo)]) THEN ToEnd(q, Head(todo)) ELSE q, Tail(todo))
-OrderAfterSubs == OrderOf(SubsNodes(ins, ins))
+\* the node order -- which can change the central compartment and with it the reported order.  The changed
+\* compartments re-enter in an order that depends on Python's set iteration (mapping built from a set, networkx
+\* sorts it topologically when some compartments are unchanged): every permutation is admitted.
+SubsChanged == {a \in Comps : doses[a] # View(doses[a])}
+OrdersAfterSubs == {OrderOf(SelectSeq(ins, LAMBDA a : a \notin SubsChanged) \o p) : p \in Perms(SubsChanged)}
 
 \* ---------------------------------------------------------------- derived: matrix, inputs, equations
 \* a matrix entry / right hand side is a set of signed terms <<sign, src, dst, kind>> (a rate is identified by
@@ -317,7 +317,7 @@ Case == LET o == Order
             nout |-> NOut,
             dosing |-> NamesSeq(DosingOf(ins)),
             order |-> NamesSeq(o),
-            subs_order |-> NamesSeq(OrderAfterSubs),
+            subs_orders |-> {NamesSeq(o2) : o2 \in OrdersAfterSubs},
             matrix |-> {[row |-> Name[o[r]], col |-> Name[o[c]], terms |-> {TermJ(t) : t \in M[r][c]}] :
                         <<r, c>> \in {x \in (1..Len(o)) \X (1..Len(o)) : M[x[1]][x[2]] # {}}},
             eqs |-> {[comp |-> Name[a],
